@@ -26,4 +26,12 @@ SPECS = [
       "        destination_port = int.from_bytes(data[0:2], byteorder='big')\n        source_port = int.from_bytes(data[2:4], byteorder='big')"],
      ["        return (self.source_port << 16) | self.destination_port",
       "        source_port = int.from_bytes(data[0:2], byteorder='big')\n        destination_port = int.from_bytes(data[2:4], byteorder='big')"]),
+    # ---- C08
+    ("C08", "pv-update-ge", G + "location_table.py", "            elif position_vector.tst > self.position_vector.tst:", "            elif position_vector.tst >= self.position_vector.tst:"),
+    ("C08", "ahead-of-clock-purged", G + "location_table.py", "                if entry.position_vector.tst > current_time\n                or (current_time", "                if (current_time"),
+    ("C08", "tsb-clears-neighbour", G + "location_table.py", "        # Step 5b – set IS_NEIGHBOUR = FALSE only for new entries (NOTE 1: unchanged otherwise)\n        if is_new_entry:\n            self.is_neighbour = False", "        self.is_neighbour = False"),
+    ("C08", "tst-gt-boundary", G + "position_vector.py", "                and ((self.msec - __o.msec) <= (2**32) / 2)", "                and ((self.msec - __o.msec) < (2**31) - 1)"),
+    ("C08", "dad-noop", G + "router.py", "        if self.mib.itsGnLocalGnAddr == gn_addr:\n            raise DADException", "        if False and self.mib.itsGnLocalGnAddr == gn_addr:\n            raise DADException"),
+    ("C08", "lsreply-sets-neighbour", G + "location_table.py", "        # Step 5: update PDR(SO)\n        entry.update_pdr(so_pv, len(packet) + 8 + 4)\n        if is_new_entry:\n            entry.is_neighbour = False", "        # Step 5: update PDR(SO)\n        entry.update_pdr(so_pv, len(packet) + 8 + 4)\n        entry.is_neighbour = True"),
+    ("C08", "no-purge-before-reception-guc", G + "location_table.py", "        self.refresh_table()\n        so_pv = guc_extended_header.so_pv", "        so_pv = guc_extended_header.so_pv"),
 ]
